@@ -19,7 +19,7 @@ Open Scope Z_scope.
 
 (* never the panic class; on success the reported length is at most the input length *)
 Theorem C03_no_panic_no_overreport : forall entry t b,
-  wf b -> Z.of_N t < 256 -> (entry = 21 -> (len b < two31)%N) ->
+  wf b -> Z.of_N t < 256 ->
   fst (run_entry entry t b) <> 2 /\
   (fst (run_entry entry t b) = 0 -> snd (run_entry entry t b) <= Z.of_N (len b)).
 Proof. exact run_entry_fine. Qed.
